@@ -649,7 +649,9 @@ func (e *EngineImpl) ExpiredIndexes(nilIndexMap *map[uint64]*meta2.IndexDuration
 		for _, pti := range e.DBPartitions[db] {
 			pti.mu.RLock()
 			for idxId := range e.DBPartitions[db][pti.id].indexBuilder {
-				if e.DBPartitions[db][pti.id].indexBuilder[idxId].Expired() {
+				// an index group can end before a shard group that uses it (shard group duration
+				// raised after the index group was created): the index must outlive that shard
+				if e.DBPartitions[db][pti.id].indexBuilder[idxId].Expired() && !indexUsedByLiveShard(pti, idxId) {
 					res = append(res, e.DBPartitions[db][pti.id].indexBuilder[idxId].Ident())
 				}
 			}
@@ -678,6 +680,20 @@ func (e *EngineImpl) ExpiredIndexes(nilIndexMap *map[uint64]*meta2.IndexDuration
 		}
 	}
 	return res
+}
+
+// indexUsedByLiveShard reports whether a shard of the partition that is not expired
+// keeps its series in the index.  The caller holds pti.mu.
+func indexUsedByLiveShard(pti *DBPTInfo, indexID uint64) bool {
+	for _, sh := range pti.shards {
+		if sh == nil || sh.IsExpired() {
+			continue
+		}
+		if ib := sh.GetIndexBuilder(); ib != nil && ib.GetIndexID() == indexID {
+			return true
+		}
+	}
+	return false
 }
 
 func (e *EngineImpl) ExpiredIndexesForMst(db, rp string, mst *meta2.MeasurementTTLTnfo) []*meta2.IndexIdentifier {
